@@ -895,6 +895,24 @@ func extractC04Flush(c *Ctx) error {
 	if flush == "" || flush == "?" || len(Calls(wd.Body, "writeCache")) != 1 {
 		return fmt.Errorf("attestMessageWrapper: exactly one `if <cond> { writeCache() }` expected (unknown shape)")
 	}
+	// the evidence handed to VerifyEvidence: msg.GetEvidence(), unfiltered
+	ve := Calls(wd.Body, "VerifyEvidence")
+	if len(ve) != 1 || len(ve[0].Args) != 2 {
+		return fmt.Errorf("attestMessageWrapper: exactly one VerifyEvidence(ctx, evidence) expected")
+	}
+	src := ""
+	if mc, ok := ve[0].Args[1].(*ast.CallExpr); ok && c.Src(mc.Fun) == "slice.Map" && len(mc.Args) == 2 {
+		if fl, ok := mc.Args[1].(*ast.FuncLit); ok && len(fl.Body.List) == 1 && len(fl.Type.Params.List) == 1 && len(fl.Type.Params.List[0].Names) == 1 {
+			if c.Src(fl.Body.List[0]) == "return "+fl.Type.Params.List[0].Names[0].Name {
+				src = c.Src(mc.Args[0])
+			}
+		}
+	}
+	if src != "msg.GetEvidence()" {
+		return fmt.Errorf("attestMessageWrapper: the evidence handed to VerifyEvidence is not msg.GetEvidence() as it is (%q): evidence filtered or re-sliced before the quorum decision is an unknown shape", c.Src(ve[0].Args[1]))
+	}
+	c.P("Definition attest_wrapper_evidence_source : string := %s.", CoqStr(src))
+	c.Info("attest_wrapper_evidence_source", src)
 	c.P("(* x/evm/keeper/attest.go attestMessageWrapper: the cache (removal of the message, effects) is written iff *)")
 	c.P("Definition attest_flush_condition : string := %s.", CoqStr(flush))
 	c.Info("attest_flush_condition", flush)
